@@ -140,6 +140,92 @@ fn four_gib_stream(rep: &Report) -> Result<(), String> {
     Ok(())
 }
 
+/// "However the data is split across read and write calls" includes sources and sinks that themselves use the library while
+/// they are being read or written (layered encryption, a lazily re-keyed source, an encrypting sink): an outer encryption
+/// and decryption whose reader / writer runs a complete inner encrypt + decrypt during its first call.
+fn reentrant_sources_and_sinks(rep: &Report) {
+    use std::io::{Read, Write};
+    let seed = rep.seed;
+    let key = derive32(seed, "c02-nest-key");
+    let inner_key = derive32(seed, "c02-nest-inner");
+    let inner_plain = plaintext(seed ^ 0x2e, 50);
+    let aad = r::PASS_MAGIC.to_vec();
+    let enc = Subject::TinyEnc { key: hx(&key), aad: hx(&aad), cs: 16 };
+    let dec = Subject::TinyDec { key: hx(&key), aad: hx(&aad), cs: 16 };
+    let inner_enc = Subject::TinyEnc { key: hx(&inner_key), aad: hx(&aad), cs: 8 };
+    let inner_dec = Subject::TinyDec { key: hx(&inner_key), aad: hx(&aad), cs: 8 };
+    let inner_roundtrip = |inner_plain: &[u8]| -> bool {
+        let (r1, ct) = run_plain(&inner_enc, inner_plain);
+        let (r2, back) = run_plain(&inner_dec, &ct);
+        r1.is_ok() && r2.is_ok() && back == inner_plain
+    };
+    struct NestReader<'a, F: Fn(&[u8]) -> bool> {
+        data: &'a [u8],
+        pos: usize,
+        inner: &'a [u8],
+        f: F,
+        ran: bool,
+        inner_ok: bool,
+    }
+    impl<'a, F: Fn(&[u8]) -> bool> Read for NestReader<'a, F> {
+        fn read(&mut self, buf: &mut [u8]) -> std::io::Result<usize> {
+            if !self.ran {
+                self.ran = true;
+                self.inner_ok = (self.f)(self.inner);
+            }
+            let n = buf.len().min(self.data.len() - self.pos).min(7);
+            buf[..n].copy_from_slice(&self.data[self.pos..self.pos + n]);
+            self.pos += n;
+            Ok(n)
+        }
+    }
+    struct NestWriter<'a, F: Fn(&[u8]) -> bool> {
+        out: Vec<u8>,
+        inner: &'a [u8],
+        f: F,
+        ran: bool,
+        inner_ok: bool,
+    }
+    impl<'a, F: Fn(&[u8]) -> bool> Write for NestWriter<'a, F> {
+        fn write(&mut self, b: &[u8]) -> std::io::Result<usize> {
+            if !self.ran {
+                self.ran = true;
+                self.inner_ok = (self.f)(self.inner);
+            }
+            self.out.extend_from_slice(b);
+            Ok(b.len())
+        }
+        fn flush(&mut self) -> std::io::Result<()> {
+            Ok(())
+        }
+    }
+    let p = plaintext(seed ^ 0x2f, 40);
+    rep.eval(4);
+    rep.nontrivial(b"reentrant");
+    // nested in the reader of the outer encryption, then in the writer of the outer decryption
+    let mut rd = NestReader { data: &p, pos: 0, inner: &inner_plain, f: &inner_roundtrip, ran: false, inner_ok: false };
+    let mut ct = Vec::new();
+    let r1 = run_rw(&enc, &mut rd, &mut ct);
+    let mut wr = NestWriter { out: vec![], inner: &inner_plain, f: &inner_roundtrip, ran: false, inner_ok: false };
+    let mut src: &[u8] = &ct;
+    let r2 = run_rw(&dec, &mut src, &mut wr);
+    // and the other two positions: nested in the writer while encrypting, in the reader while decrypting
+    let mut wr2 = NestWriter { out: vec![], inner: &inner_plain, f: &inner_roundtrip, ran: false, inner_ok: false };
+    let mut src2: &[u8] = &p;
+    let r3 = run_rw(&enc, &mut src2, &mut wr2);
+    let mut rd2 = NestReader { data: &wr2.out, pos: 0, inner: &inner_plain, f: &inner_roundtrip, ran: false, inner_ok: false };
+    let mut back2 = Vec::new();
+    let r4 = run_rw(&dec, &mut rd2, &mut back2);
+    let all_ok = r1.is_ok() && r2.is_ok() && r3.is_ok() && r4.is_ok() && rd.inner_ok && wr.inner_ok && wr2.inner_ok && rd2.inner_ok && wr.out == p && back2 == p;
+    if !all_ok {
+        rep.violation(
+            "reentrant/round-trip",
+            json!({"kind":"reentrant"}),
+            format!("a source / sink that uses the library during its first call: outer encrypt {} (inner ok: {}), outer decrypt {} (inner ok: {}, plaintext back: {}), encrypt with a nesting writer {} (inner ok: {}), decrypt with a nesting reader {} (inner ok: {}, plaintext back: {})", r1.brief(), rd.inner_ok, r2.brief(), wr.inner_ok, wr.out == p, r3.brief(), wr2.inner_ok, r4.brief(), rd2.inner_ok, back2 == p),
+        );
+    }
+}
+
 pub fn run(rep: &'static Report) {
     let seed = rep.seed;
     rep.set_rule("E-ENV in tiny scope with the password-mode AAD (magic): every read partition, bounded write partitions, both loops, plus mismatched key/AAD pairs; E-GRID through pass_encrypt/pass_decrypt: all ordered password pairs over the 12-word alphabet x salts, and lengths x bounded short-I/O schedules. distinct non-trivial = distinct ciphertext streams round-tripped + distinct (password, other password, salt) triples");
@@ -303,6 +389,7 @@ pub fn run(rep: &'static Report) {
     rep.sample(json!({"kind":"pass roundtrip","L":CS+1,"password":"(empty)","schedule":"read#1 returns 1 byte, everything else default"}));
     cli_pairs(rep);
     crate::chan::round_trips(rep, "C02");
+    reentrant_sources_and_sinks(rep);
     match big.join() {
         Ok(Ok(())) => {}
         Ok(Err(e)) => rep.violation("big/four-gib-stream", json!({"kind":"cli-rt","big":true}), e),
@@ -321,6 +408,7 @@ pub fn cli_passwords() -> Vec<(&'static str, &'static str)> {
     vec![
         ("empty", ""),
         ("a", "a"),
+        ("a-in-double-quotes", "\"a\""),
         ("A", "A"),
         ("a-space", "a "),
         ("space-a", " a"),
@@ -532,6 +620,10 @@ fn cli_pairs(rep: &Report) {
 pub fn replay(rep: &'static Report, case: &Value) {
     if case["kind"] == "chan" {
         crate::chan::round_trips(rep, "C02");
+        return;
+    }
+    if case["kind"] == "reentrant" {
+        reentrant_sources_and_sinks(rep);
         return;
     }
     if case["kind"] == "enc-fault" {
